@@ -124,6 +124,9 @@ pub enum Edit {
     AddLe { elem: usize, stride: usize, width: usize, delta: u128, modulus: Option<u128> },
     /// replace the chunk by the same number of bytes taken from a pattern
     Replace { pattern: u8 },
+    /// decode 32-byte Fp25519 elements, add the given error to the given lanes of the record at
+    /// `record` (records are `lanes_per_record` elements wide), re-encode
+    Fp25519Add { record: usize, lanes_per_record: usize, errors: Vec<(usize, [u8; 32])> },
 }
 
 #[derive(Clone, Debug)]
@@ -140,11 +143,14 @@ pub struct InterceptState {
     pub fired: bool,
     pub changed: bool,
     pub shard_msgs: usize,
+    pub more_fired: usize,
 }
 
 pub struct Interceptor {
     pub state: Mutex<InterceptState>,
     pub tamper: Option<Tamper>,
+    /// further edits applied in the same run (a consistent lie over several messages)
+    pub more: Vec<Tamper>,
     /// strip the per-run prefix of TestWorld gates so that keys are stable across runs
     pub record: bool,
 }
@@ -161,7 +167,11 @@ fn helper_index(h: HelperIdentity) -> usize {
 
 impl Interceptor {
     pub fn new(tamper: Option<Tamper>) -> Arc<Self> {
-        Arc::new(Self { state: Mutex::new(InterceptState::default()), tamper, record: true })
+        Arc::new(Self { state: Mutex::new(InterceptState::default()), tamper, more: vec![], record: true })
+    }
+    pub fn new_multi(mut tampers: Vec<Tamper>) -> Arc<Self> {
+        let first = if tampers.is_empty() { None } else { Some(tampers.remove(0)) };
+        Arc::new(Self { state: Mutex::new(InterceptState::default()), tamper: first, more: tampers, record: true })
     }
     pub fn dynamic(self: &Arc<Self>) -> DynStreamInterceptor {
         let me = Arc::clone(self);
@@ -193,6 +203,12 @@ impl Interceptor {
                         st.changed = *data != before;
                     }
                 }
+                for t in &self.more {
+                    if t.key == key && t.ordinal == ordinal && !data.is_empty() {
+                        st.more_fired += 1;
+                        apply_edit(&t.edit, data);
+                    }
+                }
             }
         }
     }
@@ -210,6 +226,23 @@ pub fn apply_edit(e: &Edit, data: &mut Vec<u8>) {
         Edit::Replace { pattern } => {
             for (i, b) in data.iter_mut().enumerate() {
                 *b = pattern.wrapping_add(i as u8);
+            }
+        }
+        Edit::Fp25519Add { record, lanes_per_record, errors } => {
+            use crate::ff::{Serializable, ec_prime_field::Fp25519};
+            let rec_bytes = lanes_per_record * 32;
+            let recs = (n / rec_bytes).max(1);
+            let base = (record % recs) * rec_bytes;
+            for (lane, e) in errors {
+                let off = base + (lane % lanes_per_record) * 32;
+                if off + 32 > n {
+                    continue;
+                }
+                let ga = |b: &[u8]| generic_array::GenericArray::<u8, typenum::U32>::from(<[u8; 32]>::try_from(b).unwrap());
+                let v = Fp25519::deserialize_infallible(&ga(&data[off..off + 32])) + Fp25519::deserialize_infallible(&ga(e));
+                let mut out = generic_array::GenericArray::<u8, typenum::U32>::default();
+                v.serialize(&mut out);
+                data[off..off + 32].copy_from_slice(&out);
             }
         }
         Edit::AddLe { elem, stride, width, delta, modulus } => {
